@@ -193,6 +193,18 @@ type NestedTimes struct {
 	G  TimeInner   `parquet:"g"`
 }
 
+// TagMix: Go types whose size or form differs from the column they are tagged
+// for: a string holding the text of a UUID, 8/16-bit integers in 64-bit columns.
+type TagMix struct {
+	ID  int64  `parquet:"id"`
+	U   string `parquet:"u,uuid"`
+	S8  int8   `parquet:"s8,int(64)"`
+	U8  uint8  `parquet:"u8,uint(64)"`
+	S16 int16  `parquet:"s16,int(64)"`
+	U16 uint16 `parquet:"u16,uint(64)"`
+	OS8 int8   `parquet:"os8,optional,int(64)"`
+}
+
 // NestedMaps: maps whose values are maps (the reader rebuilds them through a
 // scratch key/value pair reused from one entry to the next).
 type NestedMaps struct {
@@ -758,4 +770,5 @@ func init() {
 	register[SliceDecimals]("SliceDecimals")
 	register[NestedMaps]("NestedMaps")
 	register[NestedTimes]("NestedTimes")
+	register[TagMix]("TagMix")
 }
